@@ -1,4 +1,4 @@
-import Chewing.Proofs.C01Next
+import Chewing.Proofs.C01Jump
 /-!
 C01, part 9: one public operation of the editor (`Editor.apply`): returns and re-establishes `EditorInv`.
 -/
@@ -6,13 +6,6 @@ namespace Chewing.C01
 open Chewing Chewing.C04 Chewing.C05 Chewing.C06
 
 variable {D L : Type} {env : Env D L} {G : D → Prop}
-
-/-- what this package's theorem covers: everything except `jump_to_{first,last,next,prev}_selection_point`
-    **while a phrase candidate list is open** (`PhraseSelector::{next,prev}_selection_point`,
-    `jump_to_*`) -/
-def Covered (e : Editor D L) : Op L → Prop
-  | .jump _ => ∀ s p, e.state = .selecting s → s.sel ≠ .phrase p
-  | _ => True
 
 theorem select_tail_ok (hE : EnvOK env G) {sh : Shared D L} {st : St} (h : ShInv env G sh) (hs : StInv env sh st) :
     OkAnd (fun x => EditorInv env G x.1)
@@ -48,9 +41,27 @@ theorem select_api_ok (hE : EnvOK env G) {e : Editor D L} (hi : EditorInv env G 
         (StInv.same (st := .selecting s') (h2 b rfl) rfl rfl)
   · exact .ok hi
 
+/-- `Editor::revalidate_selecting` (F32 repair, the last step of the option / layout / dictionary calls):
+    under the invariant `total_page()` answers, and clamping the page / closing an empty list keeps the invariant -/
+theorem revalidate_ok (hE : EnvOK env G) {e : Editor D L} (hi : EditorInv env G e) :
+    OkAnd (EditorInv env G) (e.revalidate env) := by
+  unfold Editor.revalidate
+  split
+  · next s hst =>
+    have hs : SelInv env e.shared s := by have := hi.st; rw [hst] at this; exact this
+    obtain ⟨tp, hq, _⟩ := totalPage_ok hE hi.sh hs
+    rw [hq]
+    dsimp only
+    split
+    · exact .ok ⟨cancel_inv hi.sh, trivial⟩
+    · split
+      · exact .ok ⟨hi.sh, hs.page _⟩
+      · exact .ok hi
+  · exact .ok hi
+
 /-- **one operation**: it returns (no panic, no exhausted fuel) and the invariant holds again -/
 theorem apply_ok (hE : EnvOK env G) {e : Editor D L} (hi : EditorInv env G e) (op : Op L) (hv : OpValid op)
-    (hk : ¬ Known env e op) (hc : Covered e op) : OkAnd (EditorInv env G) (e.apply env op) := by
+    (hk : ¬ Known env e op) : OkAnd (EditorInv env G) (e.apply env op) := by
   cases op with
   | key ev =>
     have hpk : OkAnd (fun x => EditorInv env G x.1) (e.processKey env ev) := by
@@ -78,7 +89,7 @@ theorem apply_ok (hE : EnvOK env G) {e : Editor D L} (hi : EditorInv env G e) (o
     exact .ok (leaveIfEmpty_inv ⟨hi.sh.congr rfl rfl rfl rfl rfl rfl, hi.st.same rfl rfl⟩)
   | setOptions o =>
     simp only [Known, Classical.not_not] at hk
-    refine .ok (leaveIfEmpty_inv ?_)
+    refine revalidate_ok hE (leaveIfEmpty_inv ?_)
     have hsh : ∀ sh1 : Shared D L, sh1.dict = e.shared.dict → sh1.com = e.shared.com → sh1.engine = e.shared.engine →
         sh1.symSel = e.shared.symSel → ShInv env G { sh1 with options := o } := by
       intro sh1 hd hcm he hsy
@@ -96,26 +107,25 @@ theorem apply_ok (hE : EnvOK env G) {e : Editor D L} (hi : EditorInv env G e) (o
     · exact ⟨by rw [if_pos hlm]; exact hsh _ rfl rfl rfl rfl, by rw [if_pos hlm]; exact hi.st.same rfl rfl⟩
     · exact ⟨by rw [if_neg hlm]; exact hsh _ rfl rfl rfl rfl, by rw [if_neg hlm]; exact hi.st.same rfl rfl⟩
   | setLayout l =>
-    exact .ok (leaveIfEmpty_inv ⟨hi.sh.congr rfl rfl rfl rfl rfl rfl, hi.st.same rfl rfl⟩)
+    exact revalidate_ok hE (leaveIfEmpty_inv ⟨hi.sh.congr rfl rfl rfl rfl rfl rfl, hi.st.same rfl rfl⟩)
   | setEngine k =>
     simp only [Known, Classical.not_not] at hk
     refine .ok ⟨⟨hi.sh.good, hi.sh.ced, ?_, hk.2, hi.sh.perPage, hi.sh.symOK⟩, hi.st.same rfl rfl⟩
     intro c hcc
     exact ⟨hk.1 c hcc, (hi.sh.word c hcc).2⟩
-  | learn k p => exact learn_api_ok hE hi k p
+  | learn k p =>
+    obtain ⟨⟨sh, b⟩, hq, h1, hkp⟩ := learnPhrase_ok hE hi.sh k p
+    simp only [Editor.apply]
+    rw [hq]
+    exact revalidate_ok hE ⟨h1, hi.st.congr (by rw [hkp.com]) (by rw [hkp.com]) hkp.mono⟩
   | unlearn k p =>
     simp only [Known, Classical.not_not] at hk
-    refine .ok ⟨⟨hE.remove_good _ _ _ hi.sh.good, hi.sh.ced, ?_, hi.sh.coupled, hi.sh.perPage, hi.sh.symOK⟩, ?_⟩
+    refine revalidate_ok hE ⟨⟨hE.remove_good _ _ _ hi.sh.good, hi.sh.ced, ?_, hi.sh.coupled, hi.sh.perPage, hi.sh.symOK⟩, ?_⟩
     · intro c hcc
       exact ⟨hk.1 c hcc, hk.2.1 c hcc⟩
     · exact stInv_unlearn hi hk.2.2 rfl rfl
   | jump w =>
-    simp only [Editor.apply, Editor.jump]
-    split
-    · next s hs =>
-      split
-      · next p hp => exact absurd hp (hc s p hs)
-      · exact .ok hi
-    · exact .ok hi
+    obtain ⟨⟨e', b⟩, hq, h1⟩ := jump_api_ok hi w
+    simp only [Editor.apply]; rw [hq]; exact .ok h1
 
 end Chewing.C01
